@@ -71,7 +71,7 @@ def corpus(thorough):
     # --- diagonal
     dcells = ["triangle", "quadrilateral", "tetrahedron"] + (["interval", "hexahedron", "prism"] if thorough else [])
     n3, e3, _ = space.explore([space.baseline(c, it) for c in dcells for it in ("dx", "ds", "dS") if not (c == "prism" and it == "dS")], 1,
-                              dims=["elem", "op", "factor", "wrap", "arity", "restr"])
+                              dims=["elem", "op", "factor", "wrap", "arity", "restr"] if thorough else ["elem", "op", "arity", "restr"])
     for k, cfg in n3.items():
         items.append(("diagonal", k, cfg))
     items.append(("diagonal-multi", "two mixed forms in one request", dict(cell="triangle")))
